@@ -43,14 +43,28 @@ func (q *Quarantine) Unmap(b []byte, label string) error {
 
 // Find reports whether addr lies in a quarantined region.
 func (q *Quarantine) Find(addr uintptr) (label string, ok bool) {
+	_, label, ok = q.FindIndex(addr)
+	return
+}
+
+// FindIndex is like Find and also returns the region's position in unmap order
+// (0 = first region unmapped since the last Release).
+func (q *Quarantine) FindIndex(addr uintptr) (idx int, label string, ok bool) {
 	q.mu.Lock()
 	defer q.mu.Unlock()
-	for _, r := range q.regions {
+	for i, r := range q.regions {
 		if addr >= r.start && addr < r.end {
-			return r.Label, true
+			return i, r.Label, true
 		}
 	}
-	return "", false
+	return 0, "", false
+}
+
+// Count returns the number of regions quarantined since the last Release.
+func (q *Quarantine) Count() int {
+	q.mu.Lock()
+	defer q.mu.Unlock()
+	return len(q.regions)
 }
 
 // Release really unmaps everything (call at quiescence).
